@@ -38,3 +38,41 @@ package cache
 //@   ensures [assumed] result != nil
 //@   note assumed: SchedulerCache.internalPlugins is set once by the cache constructor (k8splugins.InitializeInternalPlugins) and returned as is; reads nothing of the session snapshot
 //@ end
+
+// ---- C12: the BindRequest the scheduler creates carries the labels its own snapshot selector matches -----------------
+// C12 "requests for deleted nodes ... are deleted": snapshotBindRequests keeps a request of a vanished node for
+// deletion only if the scheduler's node-pool selector matches the request's labels; for the default partition
+// (label key set, value empty) that selector is "key DoesNotExist". So createBindRequest must stamp the node-pool label
+// exactly when GetLabels() yields it (key AND value set) - and always the selected-node label.
+//@ import schedulingv1alpha2 "github.com/NVIDIA/KAI-scheduler/pkg/apis/scheduling/v1alpha2"
+//@ ghost createdBindRequest() *schedulingv1alpha2.BindRequest
+//@ func github.com/NVIDIA/KAI-scheduler/pkg/apis/client/clientset/versioned.Interface.SchedulingV1alpha2
+//@   pure
+//@   ensures [assumed] result != nil
+//@   note assumed: generated clientset accessor
+//@ end
+//@ func github.com/NVIDIA/KAI-scheduler/pkg/apis/client/clientset/versioned/typed/scheduling/v1alpha2.SchedulingV1alpha2Interface.BindRequests
+//@   pure
+//@   ensures [assumed] result != nil
+//@   note assumed: generated clientset accessor
+//@ end
+//@ func github.com/NVIDIA/KAI-scheduler/pkg/apis/client/clientset/versioned/typed/scheduling/v1alpha2.BindRequestInterface.Create
+//@   modifies createdBindRequest()
+//@   ensures [assumed] createdBindRequest() == bindRequest
+//@   note assumed: generated client (REST call to the API server); touches nothing of the scheduler's memory; ghost: remembers the object it was asked to create
+//@ end
+//@ func (*SchedulerCache).createBindRequest
+//@   props C12
+//@   requires sc != nil && sc.kubeAiSchedulerClient != nil && sc.schedulingNodePoolParams != nil
+//@   requires podInfo != nil && podInfo.Pod != nil && podInfo.AcceptedResource != nil
+//@   loop 1
+//@     invariant labels != nil && fresh(labels)
+//@     invariant forall k string :: k in labels <==> k == "selected-node" || k in visited
+//@     invariant labels["selected-node"] == nodeName || "selected-node" in visited
+//@     invariant forall k in visited :: labels[k] == sc.schedulingNodePoolParams.NodePoolLabelValue && k == sc.schedulingNodePoolParams.NodePoolLabelKey && sc.schedulingNodePoolParams.NodePoolLabelKey != "" && sc.schedulingNodePoolParams.NodePoolLabelValue != ""
+//@   modifies createdBindRequest()
+//@   ensures [requestCreated] createdBindRequest() != nil && createdBindRequest().Spec.SelectedNode == nodeName
+//@   ensures [selectedNodeLabel] sc.schedulingNodePoolParams.NodePoolLabelKey != "selected-node" ==> createdBindRequest().Labels["selected-node"] == nodeName
+//@   ensures [nodePoolLabelIffKeyAndValue] forall k string :: k != "selected-node" ==> (k in createdBindRequest().Labels <==> sc.schedulingNodePoolParams.NodePoolLabelKey != "" && sc.schedulingNodePoolParams.NodePoolLabelValue != "" && k == sc.schedulingNodePoolParams.NodePoolLabelKey)
+//@   ensures [nodePoolLabelValue] sc.schedulingNodePoolParams.NodePoolLabelKey != "" && sc.schedulingNodePoolParams.NodePoolLabelValue != "" ==> createdBindRequest().Labels[sc.schedulingNodePoolParams.NodePoolLabelKey] == sc.schedulingNodePoolParams.NodePoolLabelValue
+//@ end
